@@ -14,6 +14,9 @@ Contexts: ctx0 = caller ctx; ctxC = WithCancelCause(ctx0) :73 (cancelled by the 
 streamCtx = WithCancel(ctxC) :77 (cancelled by the caller after the consumer returned :148, fix 08471b8).  The inner
 terminal checks streamCtx before every pull and passes it to P.Emit.
 
+After `cancelStream()` the caller waits for the writer goroutine (`<-writerDone`, fix B3) and only then returns: label
+`tJoin`, enabled only when the writer is `done`.
+
 The consumer is user code: its reads and its return are environment transitions; it is owed that it returns.
 -/
 import ShpanVerif.Model.ConcCore
@@ -41,6 +44,7 @@ inductive TPc
   | inCons   -- inside consumer(ctx, pr) :142
   | prClose  -- :146
   | cancelS  -- :148
+  | join     -- `<-writerDone` (fix B3)
   | ret
   deriving DecidableEq, Repr, Hashable
 
@@ -50,6 +54,9 @@ structure Cfg where
   /-- `true` = the code as it is (fix 08471b8: cancelStream() after pr.Close()); `false` = the earlier code, kept for
       the leak witness (finding D25). -/
   fix25 : Bool := true
+  /-- `true` = the code as it is (fix B3: the function waits for the writer goroutine before it returns); `false` = the
+      earlier code, which returned right after `cancelStream()`. -/
+  fixJoin : Bool := true
   deriving DecidableEq, Repr
 
 structure St where
@@ -78,7 +85,7 @@ structure St where
 inductive Label
   | wOpenOk | wOpenErr | wCheck | wEmitVal | wEmitEof | wEmitErr | wWrFail | wCloseP | wClosed | wCancelC | wPwClose
   | rRead | rReturn
-  | tPrClose | tCancelS
+  | tPrClose | tCancelS | tJoin
   | cancel
   deriving DecidableEq, Repr
 
@@ -140,7 +147,11 @@ def step (cfg : Cfg) (s : St) : Label → Option St
     else none
   | .rReturn => if s.t = .inCons then some { s with t := .prClose } else none
   | .tPrClose => if s.t = .prClose then some { s with t := .cancelS, prClosed := true } else none
-  | .tCancelS => if s.t = .cancelS then some { s with t := .ret, sCancelled := s.sCancelled || cfg.fix25 } else none
+  | .tCancelS =>
+    if s.t = .cancelS then
+      some { s with t := if cfg.fixJoin then .join else .ret, sCancelled := s.sCancelled || cfg.fix25 }
+    else none
+  | .tJoin => if s.t = .join ∧ s.w = .done then some { s with t := .ret } else none
   | .cancel => if s.ctx0 then none else some { s with ctx0 := true }
 
 def sys (cfg : Cfg) : Sys St Label := { init := init cfg, step := step cfg }
@@ -155,6 +166,6 @@ def inHand (i : Nat) : WPc → Nat
 def cnt (i : Nat) (s : St) : Nat := inHand i s.w + s.written.count i
 
 def internalLabels (_s : St) : List Label :=
-  [.tPrClose, .tCancelS, .wOpenOk, .wCheck, .wWrFail, .wCloseP, .wClosed, .wCancelC, .wPwClose]
+  [.tPrClose, .tCancelS, .tJoin, .wOpenOk, .wCheck, .wWrFail, .wCloseP, .wClosed, .wCancelC, .wPwClose]
 
 end ShpanVerif.Model.JsonPipe
